@@ -31,6 +31,10 @@ Finding of this extension (KNOWN_FINDINGS C24:host-bypass-across-zones, proposed
 bypass route between two hosts that are not both direct members of the declaring zone is never used by the code; such a
 rejection is tagged only when TLC says both that the expected behaviour uses such a bypass ("hbypx") and that the returned
 route is accepted by the machine that ignores it (DEV=known, "hbypskip").
+Classification extended at the same time (Hier!SpStep, flag "djkpre"): a Floyd zone crossing a member Dijkstra zone between
+two different gateways hands its list under construction to DijkstraZone::get_local_route, which puts its links in front
+(recorded defect dijkstra-multilink-route-reversed; the flag used to be raised only after a bypass): the committed check
+exited 1 with VERIF_SEED=2 on the unchanged tree for that reason (platform g8, routes through z5 from r2 to h5).
 
 Binding demonstrated (scratch worktree of /repo, quick tier, `VERIF_REPO=... VERIF_BUILD=...`):
   * all proposed fixes applied (proposed/fix-C24-interzone-and-bypass.diff, fix-C25-dijkstra.diff, fix-C26-dragonfly.diff):
